@@ -75,15 +75,15 @@ Definition conn_tokens (c : bytes) : list bytes :=
    once, so deleting "Connection" itself on the way does not cut the iteration short) *)
 Definition conn_values (h : hdr) : list bytes :=
   match hlookup h K_CONNECTION with Some vs => vs | None => [] end.
-Definition req_conn_tokens (h : hdr) : list bytes := flat_map conn_tokens (conn_values h).
-Definition strip_conn_listed (h : hdr) : hdr := fold_left hdel (req_conn_tokens h) h.
+Definition listed_conn_tokens (h : hdr) : list bytes := flat_map conn_tokens (conn_values h).
+Definition strip_conn_listed (h : hdr) : hdr := fold_left hdel (listed_conn_tokens h) h.
 (* a hop-by-hop header is deleted when the key is present (_, ok := Header[h]), whatever its values *)
 Definition has_key (h : hdr) (k : bytes) : bool := match hlookup h k with Some _ => true | None => false end.
 Definition strip_hop_req (h : hdr) : hdr :=
   fold_left (fun h k => if has_key h k then hdel h k else h) gen_hop_headers h.
 (* was the header map copied (true) or does outreq.Header alias r.Header (false)? *)
 Definition req_copied (h : hdr) : bool :=
-  negb (is_nil (req_conn_tokens h)) ||
+  negb (is_nil (listed_conn_tokens h)) ||
   existsb (has_key (strip_conn_listed h)) gen_hop_headers.
 Definition COMMA_SP : bytes := [44; 32].
 Definition add_xff (remote : bytes) (h : hdr) : hdr :=
@@ -282,8 +282,9 @@ Definition run_request (c : pcfg) (q : request) (ts : list target) : list sent *
            {| s_url := q_url q; s_hdr := create_upstream_headers (q_remote q) (q_hdr q) |} ts.
 
 (* ---- response half of ReverseProxy.ServeHTTP ---- *)
+(* every Connection value of the backend response is consulted (range over res.Header["Connection"]) *)
 Definition resp_strip (h : hdr) : hdr :=
-  fold_left hdel gen_hop_headers (fold_left hdel (conn_tokens (hget h K_CONNECTION)) h).
+  fold_left hdel gen_hop_headers (fold_left hdel (listed_conn_tokens h) h).
 Definition copy_header_step (dst : hdr) (kv : bytes * list bytes) : hdr :=
   let '(k, vv) := kv in
   match hlookup dst k with
